@@ -168,6 +168,11 @@ CommittedToken(calls, onb0, bump) ==
   ELSE IF onb0 /\ f[n][3] < bump /\ \A i \in 1..(n - 1) : f[i][4] = 1
        THEN 0                                   \* halving exit: nothing was ever committed
   ELSE n
+\* the call started on a boundary and at least one trial chord led straight back through it
+\* (the retry-with-half-the-substep branch was taken before anything was accepted)
+ReentrantRetry(calls, onb0, bump) ==
+  LET f == Finds(calls) IN
+  onb0 /\ \E i \in DOMAIN f : f[i][4] = 1 /\ f[i][3] < bump /\ \A j \in 1..(i - 1) : f[j][4] = 1
 SetDirs(calls) == SelectSeq(calls, LAMBDA c : c[1] = "SetDir")
 \* every in-loop set_dir uses the chord, the last one the committed momentum
 DirDiscipline(calls, onb0, bump) ==
